@@ -31,11 +31,11 @@ def Cons (v0 : V) (a b id : Nat) : Prop :=
   (∃ d ∈ v0.dels, d.1.id = id ∧ v0.itDelRev < d.2 ∧ d.2 ≤ b)
 
 /-- the item was queued by the failure of the retry of an item `it` that was due and for whose
-    object no change was waiting: the count grew by one, `origRev` is the revision the failed retry
-    was made for (`it.rev`) -/
+    object no change was waiting: the count grew by one, `origRev` is kept (the revision of the
+    change that failed FIRST) -/
 def AgainIt (v0 : V) (it' : Item) : Prop :=
   ∃ it ∈ v0.items, ¬ StaleV v0 it.id ∧ it.id = it'.id ∧ it.retryAt ≤ v0.now ∧ it'.numRetries = it.numRetries + 1 ∧
-    it'.retryAt = v0.now + backoff v0.cfg.minB v0.cfg.maxB (it.numRetries + 1) ∧ it'.origRev = it.rev ∧
+    it'.retryAt = v0.now + backoff v0.cfg.minB v0.cfg.maxB (it.numRetries + 1) ∧ it'.origRev = it.origRev ∧
     it'.delete = it.delete ∧ it'.obj = it.obj ∧ it'.inQueue = true
 
 /-- (inside a round only) the item was due, its Update was retried and failed; the status commit
@@ -91,7 +91,12 @@ theorem mem_clear_single_del {v : V} {o : RObj} {rev : Nat} {f : Bool} {x : Item
         intro it hit
         simp only [clear_items, call_items, List.mem_filter] at hit
         simpa using hit.2
-      rw [this]
+      have hpo : prevO ((v.clear o.id).call ⟨"D", o.id, o.data, false⟩).items o.id rev = rev := by
+        apply prevO_of_not_mem
+        intro it hit
+        simp only [clear_items, call_items, List.mem_filter] at hit
+        simpa using hit.2
+      rw [this, hpo]
       rfl
 
 theorem k1_skip (v0 : V) (r : R) (c : Change) (cs : List Change) (_ : Nat) (_ : InvL r r.results) (hch : ChOK r r.results (c :: cs))
@@ -266,7 +271,9 @@ theorem q1_write (v0 : V) (r r' : R) (res : Res) (rs : List Res) (cur : RObj) (h
           rw [(hq.items i hi).1] at this; cases this
         · exact absurd hrev a.1
       have hp : prevN (r.v.setObj { res.1 with kind := .error, sid := r.nextSid }).items res.2.1.id = 0 := prevN_of_not_mem hnone
-      rw [e, hp]
+      have hpo : prevO (r.v.setObj { res.1 with kind := .error, sid := r.nextSid }).items res.2.1.id res.2.2.1 = res.2.2.1 :=
+        prevO_of_not_mem hnone _
+      rw [e, hp, hpo]
       refine ⟨rfl, Or.inr ⟨rfl, ?_, rfl, rfl, Or.inr ⟨rfl, ?_, ?_, ?_, ?_⟩⟩⟩
       · show r.v.now + backoff r.v.cfg.minB r.v.cfg.maxB 1 = _
         rw [hq.now, hq.cfg]
@@ -308,7 +315,7 @@ structure QT (v0 v : V) : Prop where
 theorem mem_pop_single {v : V} {X : Nat} {o : RObj} (ho : o.id = X) {rev : Nat} {d f : Bool} {x : Item}
     (hx : x ∈ ((v.pop X).single o rev d f).items) :
     (x ∈ v.items ∧ x.id ≠ X) ∨ (d = false ∧ f = true ∧ ∃ i ∈ v.items, i.id = X ∧ x = popItem X i) ∨
-    (d = true ∧ f = true ∧ x = mkItem v.now v.cfg o rev rev true (prevN v.items X + 1)) := by
+    (d = true ∧ f = true ∧ x = mkItem v.now v.cfg o rev (prevO v.items X rev) true (prevN v.items X + 1)) := by
   have hfilt : ∀ y, y ∈ (v.pop X).items → y.id ≠ X → y ∈ v.items ∧ y.id ≠ X := by
     intro y hy hne
     simp only [pop_items, List.mem_map] at hy
@@ -335,7 +342,7 @@ theorem mem_pop_single {v : V} {X : Nat} {o : RObj} (ho : o.id = X) {rev : Nat} 
       refine ⟨rfl, rfl, ?_⟩
       rw [e]
       simp only [call_items, pop_items, call_now, pop_now, call_cfg, pop_cfg]
-      rw [prevN_pop, ho]
+      rw [prevN_pop, prevO_pop, ho]
 
 theorem q2_retry (v0 v4 : V) (hpos : PosB v0.cfg) (r r' : R) (h : Item) (hI : InvL r r.results) (hcu : CaughtUp r) (hh : r.head = some h)
     (hdue : h.retryAt ≤ r.now) (_ : r.numReconciled < r.cfg.roundSize)
@@ -387,7 +394,8 @@ theorem q2_retry (v0 v4 : V) (hpos : PosB v0.cfg) (r r' : R) (h : Item) (hI : In
       exact Or.inr (Or.inl ⟨h, h0, hns, by omega, rfl⟩)
     · right; right; right
       have hp : prevN r.v.items h.id = h.numRetries := prevN_of_mem hI.items_pw hit0
-      rw [e, hp]
+      have hpo : prevO r.v.items h.id h.rev = h.origRev := prevO_of_mem hI.items_pw hit0 _
+      rw [e, hp, hpo]
       refine ⟨h, h0, hns, hobj.symm, by omega, rfl, ?_, rfl, hd.symm, rfl, rfl⟩
       show r.v.now + backoff r.v.cfg.minB r.v.cfg.maxB (h.numRetries + 1) = _
       rw [hq.now, hq.cfg]
@@ -459,8 +467,11 @@ theorem q2_write (v0 v4 : V) (r r' : R) (res : Res) (rs : List Res) (cur : RObj)
         have hp : prevN (r.v.setObj { res.1 with kind := .error, sid := r.nextSid }).items res.2.1.id = i.numRetries := by
           have : res.2.1.id = i.id := by omega
           rw [this]; exact prevN_of_mem hI.items_pw hi
+        have hpo : prevO (r.v.setObj { res.1 with kind := .error, sid := r.nextSid }).items res.2.1.id res.2.2.1 = i.origRev := by
+          have : res.2.1.id = i.id := by omega
+          rw [this]; exact prevO_of_mem hI.items_pw hi _
         right; right; right
-        rw [e, hp]
+        rw [e, hp, hpo]
         refine ⟨it, hit0, hns, ?_, hdue, ?_, ?_, ?_, ?_, ?_, rfl⟩
         · show it.id = res.2.1.id
           rw [ei] at e1; simp only [popItem_id] at e1; omega
@@ -469,8 +480,8 @@ theorem q2_write (v0 v4 : V) (r r' : R) (res : Res) (rs : List Res) (cur : RObj)
         · show (r.v.setObj _).now + backoff (r.v.setObj _).cfg.minB (r.v.setObj _).cfg.maxB (i.numRetries + 1) = _
           simp only [setObjV_now, setObjV_cfg]
           rw [hq.now, hq.cfg, ei]; simp
-        · show res.2.2.1 = it.rev
-          rw [← e3, ei]; simp
+        · show i.origRev = it.origRev
+          rw [ei]; simp
         · show false = it.delete
           rw [ei] at hdel; simp only [popItem_delete] at hdel; exact hdel.symm
         · show res.2.1 = it.obj
